@@ -4,5 +4,5 @@ cd "$(dirname "$0")/.."
 TIER=${TIER:-quick}
 for s in "$@"; do
   for i in 01 02 03 04 05 06 07 08 09 10 11 12 13 14 15 16 17 18 19 20; do echo C$i; done | \
-    xargs -P5 -I{} sh -c "VERIF_SEED=$s VERIF_TIER=$TIER ./check {} --tier $TIER 2>&1 | grep -v conda | grep -E 'VIOLATION|^C[0-9]+:|Traceback|Error' | tr '\n' ' ' | sed 's/^/seed=$s {} rc: /'; echo"
+    xargs -P4 -I{} sh -c "VERIF_SEED=$s VERIF_TIER=$TIER ./check {} --tier $TIER 2>&1 | grep -v conda | grep -E 'VIOLATION|^C[0-9]+:|Traceback|Error' | tr '\n' ' ' | sed 's/^/seed=$s {} rc: /'; echo"
 done
